@@ -19,6 +19,7 @@ type heapGen struct {
 	vars   []heapVar
 	nextID *int
 	births map[int]bool
+	inds   map[int]bool
 	fn     int
 	nv     int
 }
@@ -58,7 +59,7 @@ func (g *heapGen) line(format string, a ...any) {
 
 // step emits one random heap operation followed by probes of the values it defines.
 func (g *heapGen) step() {
-	switch g.r.Intn(26) {
+	switch g.r.Intn(28) {
 	case 0, 1:
 		v := g.fresh("P")
 		if g.r.Intn(2) == 0 {
@@ -196,6 +197,23 @@ func (g *heapGen) step() {
 			g.line("%s := *pp%d_%d", v.name, g.fn, g.nv)
 			g.probe(v, false)
 		}
+	case 26, 27:
+		// pointer to a pointer field obtained through a small accessor called from several sites
+		if a, ok := g.pick("P"); ok {
+			g.nv++
+			g.line("q%d_%d := %s.slot()", g.fn, g.nv, a.name)
+			id := *g.nextID
+			*g.nextID++
+			g.inds[id] = true
+			g.line("rt.ProbeInd(%d, q%d_%d)", id, g.fn, g.nv)
+			if b, ok2 := g.pick("P"); ok2 && g.r.Intn(2) == 0 {
+				g.line("*q%d_%d = %s", g.fn, g.nv, b.name)
+				id2 := *g.nextID
+				*g.nextID++
+				g.inds[id2] = true
+				g.line("rt.ProbeInd(%d, q%d_%d)", id2, g.fn, g.nv)
+			}
+		}
 	case 21:
 		if s, ok := g.pick("S"); ok {
 			v := g.fresh("S")
@@ -239,6 +257,12 @@ func (g *heapGen) step() {
 
 // RenderHeapProgram renders nFuncs scripts of nSteps steps each. It returns the files and the set of birth probes.
 func RenderHeapProgram(r HeapRand, nFuncs, nSteps int) (map[string]string, map[int]bool) {
+	files, births, _ := RenderHeapProgram2(r, nFuncs, nSteps)
+	return files, births
+}
+
+// RenderHeapProgram2 also returns the set of indirect probes (rt.ProbeInd).
+func RenderHeapProgram2(r HeapRand, nFuncs, nSteps int) (map[string]string, map[int]bool, map[int]bool) {
 	var sb strings.Builder
 	sb.WriteString(`package main
 
@@ -257,6 +281,8 @@ type Noder interface{ next() *T }
 
 func (t *T) next() *T { return t.f }
 
+func (t *T) slot() **T { return &t.f }
+
 var gT *T
 
 func idT(p *T) *T    { return p }
@@ -266,8 +292,9 @@ func loadG() *T     { return gT }
 `)
 	next := 1
 	births := map[int]bool{}
+	inds := map[int]bool{}
 	for f := 0; f < nFuncs; f++ {
-		g := &heapGen{r: r, nextID: &next, births: births, fn: f}
+		g := &heapGen{r: r, nextID: &next, births: births, inds: inds, fn: f}
 		// every script starts with a few allocations so that the pool is never empty
 		for _, k := range []int{0, 0, 2, 3, 4} {
 			_ = k
@@ -299,5 +326,5 @@ func loadG() *T     { return gT }
 		fmt.Fprintf(&sb, "\trt.Mark(%d)\n\trt.Try(script%d)\n", f, f)
 	}
 	sb.WriteString("}\n")
-	return map[string]string{"main.go": sb.String()}, births
+	return map[string]string{"main.go": sb.String()}, births, inds
 }
